@@ -62,3 +62,12 @@ ENTRIES += [
     B('producer-stale-unfinished-count', "            item = yield from self.process_one()\n\n            if not item and self._item_queue.unfinished_items == 0:", "            unfinished_items = self._item_queue.unfinished_items\n            item = yield from self.process_one()\n\n            if not item and unfinished_items == 0:", 'C13-D2'),
     N('producer-fresh-unfinished-local', "            item = yield from self.process_one()\n\n            if not item and self._item_queue.unfinished_items == 0:", "            item = yield from self.process_one()\n            unfinished_items = self._item_queue.unfinished_items\n\n            if not item and unfinished_items == 0:"),
 ]
+
+ENTRIES += [
+    B('regress-stop-before-producer-started', "        if self._state != PipelineState.running:\n            # stop() was called before this task got to run; the producer\n            # would not know and carry on with no worker left.\n            return\n\n", "", 'C13-D8'),
+    B('producer-start-guard-wrong-state', "        if self._state != PipelineState.running:\n            # stop() was called before this task got to run; the producer\n            # would not know and carry on with no worker left.\n            return\n", "        if self._state == PipelineState.stopped:\n            return\n", 'C13-D8'),
+    N('producer-start-guard-positive', "        if self._state != PipelineState.running:\n            # stop() was called before this task got to run; the producer\n            # would not know and carry on with no worker left.\n            return\n\n        try:\n            yield from self._producer.process()\n",
+      "        if self._state == PipelineState.running:\n            pass\n        else:\n            return\n\n        try:\n            yield from self._producer.process()\n"),
+    N('producer-start-guard-stopping', "        if self._state != PipelineState.running:\n            # stop() was called", "        if self._state in (PipelineState.stopping, PipelineState.stopped):\n            # stop() was called"),
+    N('shutdown-results-retrieved', "            yield from asyncio.wait(self._worker_tasks)\n", "            done = (yield from asyncio.wait(self._worker_tasks))[0]\n            for task in done:\n                task.exception()\n"),
+]
